@@ -16,6 +16,7 @@ import BR.Model.RRT
 import BR.Model.HeapOps
 import BR.Model.Arm
 import BR.Model.IK
+import BR.Model.Urdf
 
 namespace BR.Driver
 
@@ -357,6 +358,30 @@ def parseOp (name : String) (l : List Float) (n : Nat) : Option (Op Float) :=
 
 end ArmIO
 
+namespace UrdfIO
+open BR.UrdfModel BR.MR MRIO
+
+def joints (n : Nat) (l : List Float) : Option (List (Joint Float)) :=
+  match n with
+  | 0 => some []
+  | k + 1 => match l with
+    | m :: r => do
+      let (o, r) ← t4 r
+      let (a, r) ← v3 r
+      let rest ← joints k r
+      some ({ moving := m != 0, origin := o, axis := a } :: rest)
+    | [] => none
+
+/-- urdf.load n (moving origin16 axis3)* -> home16 then the screws -/
+def handle (fn : String) (a : List Float) : Option (List Float) :=
+  match fn, a with
+  | "urdf.load", nf :: r => do
+    let js ← joints nf.toUInt64.toNat r
+    some (oT4 (homeOf T4.one js) 1 ++ (screwsOf T4.one js).flatMap oV6)
+  | _, _ => none
+
+end UrdfIO
+
 namespace IKIO
 open BR.IKModel BR.MR MRIO
 
@@ -462,11 +487,12 @@ def handle (fn : String) (args : List String) : String :=
           toString (obstruction2_gen a b c d e f g h i j k l m n o p q r)
       | _ => "bad-op"
   | _ =>
-    if fn.startsWith "mr." || fn.startsWith "scr." || fn.startsWith "hlp." || fn.startsWith "ik." then
+    if fn.startsWith "mr." || fn.startsWith "scr." || fn.startsWith "hlp." || fn.startsWith "ik." || fn.startsWith "urdf." then
       match allSome (args.map parseFloat) with
       | some fl => match (if fn.startsWith "mr." then MRIO.handle fn fl
                           else if fn.startsWith "scr." then ScrIO.handle fn fl
-                          else if fn.startsWith "ik." then IKIO.handle fn fl else HlpIO.handle fn fl) with
+                          else if fn.startsWith "ik." then IKIO.handle fn fl
+                          else if fn.startsWith "urdf." then UrdfIO.handle fn fl else HlpIO.handle fn fl) with
         | some out => " ".intercalate (out.map fmtFloat)
         | none => "bad-op"
       | none => "bad-op"
